@@ -19,6 +19,11 @@ A case is one of
       objects (a loop over measures); the case's own contest is constructed after shared[:k]; once all are constructed
       everything is evaluated for every one of them (the model is asked about the case's own contest, the oracle
       checks all of them: a construction must not depend on, or disturb, what was built from the same lists).
+      optionally with "phantoms": {"use_style": bool, "n": k}: the workflow CVR.make_phantoms -> Contest.tally ->
+      find_margin_from_tally.  The last k cards of "cvrs" are the phantom records make_phantoms has to create from the
+      first len-k (real) ones: the contest's card bound (with style information; every real card lists the contest) or
+      the stratum's (without; make_phantoms then sets contest.cards itself) is len(cvrs).  Everything is evaluated on
+      the list make_phantoms RETURNS, with the Contest object it has annotated (`cvrs`, `cards`).
   {"op": "irv",     "contest", "candidates", "assertions", "cvrs"}
   {"op": "margin",  "scf", "winner", "loser", "candidates", "share", "cards", "tally"}
 A cvr is {"id": str, "votes": [[contest, [[candidate, value], ...]], ...]}: dicts are written as lists of pairs so
@@ -40,7 +45,9 @@ RULE = ("random plurality (k winners), approval and super-majority contests with
         "the NotImplementedError / ZeroDivisionError branches; operation sequences on one set of assertions and one "
         "list object (evaluate all means/sums/margins in a random order, amend 1..all ballots in place with "
         "CVR.update_votes or by replacing elements, keeping the length, evaluate again; 1-3 rounds, votes moved "
-        "towards the losers, the winners or at random) with every round checked by the oracle; corpus = exhaustive single-card tables over all mark "
+        "towards the losers, the winners or at random) with every round checked by the oracle; the phantom workflow "
+        "(card bound above the number of CVRs, with and without style information: CVR.make_phantoms creates the "
+        "missing records and annotates the Contest object, everything is evaluated on the list it returns); corpus = exhaustive single-card tables over all mark "
         "patterns (8 encodings per candidate) of 2, 3 and 4 candidates.  non-trivial = at least one assertion and at "
         "least two cards of which one carries a truthy mark; distinct = distinct canonical input")
 EXHAUSTIVE = {"quick": False, "thorough": False}
@@ -157,6 +164,24 @@ def corpus():
         out.append({"op": "contest", "scf": PLUR, "contest": "P", "candidates": ["a", "b"], "winners": ["a"],
                     "n_winners": 1, "share": 0.5, "cvrs": st1, "order": order,
                     "rounds": [{"cvrs": st0, "order": order, "ops": ops}]})
+    # the phantom workflow: 5 CVRs, card bound 8 (2-winner plurality); 4 CVRs, bound 6 (super-majority); and a stratum
+    # bound of 6 without style information, one of 4 CVRs lacking the contest
+    out.append({"op": "contest", "scf": PLUR, "contest": "council", "candidates": ["Ann", "Bo", "Cy", "Di"],
+                "winners": ["Ann", "Bo"], "n_winners": 2, "share": 0.5, "phantoms": {"use_style": True, "n": 3},
+                "cvrs": [card(0, "council", [["Ann", 1], ["Bo", 1]]), card(1, "council", [["Ann", 1], ["Cy", 1]]),
+                         card(2, "council", [["Bo", 1]]), card(3, "council", [["Ann", 1], ["Bo", 1]]),
+                         card(4, "council", [["Di", 1]])]
+                        + [{"id": f"phantom-{j}", "votes": [["council", []]]} for j in (1, 2, 3)]})
+    out.append({"op": "contest", "scf": SUPER, "contest": "measure", "candidates": ["yes", "no"], "winners": ["yes"],
+                "n_winners": 1, "share": 0.6, "phantoms": {"use_style": True, "n": 2},
+                "cvrs": [card(0, "measure", [["yes", 1]]), card(1, "measure", [["yes", 1]]),
+                         card(2, "measure", [["yes", 1]]), card(3, "measure", [["no", 1]])]
+                        + [{"id": f"phantom-{j}", "votes": [["measure", []]]} for j in (1, 2)]})
+    out.append({"op": "contest", "scf": PLUR, "contest": "AvB", "candidates": ["a", "b"], "winners": ["a"],
+                "n_winners": 1, "share": 0.5, "phantoms": {"use_style": False, "n": 2},
+                "cvrs": [card(0, "AvB", [["a", True]]), card(1, "AvB", [["a", True]]), card(2, "AvB", [["b", True]]),
+                         card(3, "AvB", None, extra=[["other", [["x", True]]]])]
+                        + [{"id": f"phantom-{j}", "votes": []} for j in (1, 2)]})
     # exhaustive single-card tables
     for nc in (2, 3, 4):
         cands = ["a", "b", "c", "d"][:nc]
@@ -389,6 +414,25 @@ def gen_shared(rng, tier):
     return {**base, "direct": True, "shared": others, "main_at": rng.randint(0, len(others))}
 
 
+def gen_phantoms(rng, tier):
+    """the card bound exceeds the number of CVRs: CVR.make_phantoms makes up the difference (and records the number of
+    real CVRs listing the contest on the Contest object) before anything is tallied"""
+    base = gen_contest(rng, tier)
+    contest = base["contest"]
+    use_style = rng.chance(0.6)
+    cvrs = base["cvrs"]
+    if use_style:
+        # per-contest phantoms: bound = cards listing the contest; keep len(list) = bound (every real card lists it)
+        cvrs = [c for c in cvrs if _dict_of(c, contest) is not None]
+        k = rng.choice([1, 1, 2, 3, 5, 8])
+    else:
+        k = rng.choice([0, 1, 1, 2, 4, 7])
+    for i, c in enumerate(cvrs):
+        c["id"] = str(i)
+    cvrs = cvrs + [{"id": f"phantom-{j + 1}", "votes": [[contest, []]] if use_style else []} for j in range(k)]
+    return {**base, "cvrs": cvrs, "phantoms": {"use_style": use_style, "n": k}}
+
+
 def gen_irv(rng, tier):
     names = rng.choice(NAMES[:2])
     nc = rng.choice([2, 3, 3, 4, 4, 5])
@@ -450,8 +494,10 @@ def gen_margin(rng, tier):
 def gen(rng, n, tier):
     for i in range(n):
         u = rng.random()
-        if u < 0.58:
+        if u < 0.50:
             yield gen_contest(rng, tier)
+        elif u < 0.58:
+            yield gen_phantoms(rng, tier)
         elif u < 0.74:
             yield gen_sequence(rng, tier)
         elif u < 0.82:
@@ -575,6 +621,14 @@ def impl_contest(case):
         return _impl_shared(case)
     cons = Contest.from_dict_of_dicts({cid: _contest_dict(case, len(cvrs))})
     con = cons[cid]
+    ph = case.get("phantoms")
+    if ph is not None:
+        # the real records only; the library makes the phantoms (and annotates the Contest object)
+        from shangrla.core.Audit import Audit, CVR
+        audit = Audit.from_dict({"strata": {"stratum_1": {"max_cards": len(case["cvrs"]), "use_style": ph["use_style"],
+                                                          "replacement": False}}})
+        reals = _cvrs({"cvrs": case["cvrs"][:len(case["cvrs"]) - ph["n"]]})
+        cvrs, n_made = CVR.make_phantoms(audit=audit, contests=cons, cvr_list=reals)
     if case["scf"] == APPR or (case.get("direct") and case["scf"] == PLUR):
         # make_all_assertions has no APPROVAL branch; approval contests use the plurality assertions
         con.assertions = Assertion.make_plurality_assertions(
@@ -595,6 +649,10 @@ def impl_contest(case):
     if rounds:
         res["rounds"] = hist
         res["state"] = _readback(cvrs)
+    if ph is not None:
+        res["state"] = _readback(cvrs)
+        res["n_phantoms"] = int(n_made)
+        res["cards"] = con.cards
     return res
 
 
@@ -714,6 +772,12 @@ def compare(case, ir, mr):
                 return f"round {k}: the list holds {h['state']} but the case says {r['cvrs']}"
         if ir["state"] != case["cvrs"]:
             return f"after the last round the list holds {ir['state']} but the case says {case['cvrs']}"
+    if op == "contest" and case.get("phantoms") is not None:
+        # the list make_phantoms returned is the list the case says, and the contest's card bound is its length
+        if ir["state"] != [_pairs_cvr(c) for c in case["cvrs"]] or ir["n_phantoms"] != case["phantoms"]["n"]:
+            return f"make_phantoms returned {ir['n_phantoms']} phantoms, list {ir['state']}; the case says {case['cvrs']}"
+        if ir["cards"] != len(case["cvrs"]):
+            return f"contest.cards is {ir['cards']} after make_phantoms, the case says {len(case['cvrs'])}"
     ma = {}
     for a in mr["assertions"]:
         ma[a["key"]] = a
@@ -808,6 +872,8 @@ def signature(case, ir):
         flags.append("nocontest")
     if case.get("shared") is not None:
         flags.append("shared")
+    if case.get("phantoms") is not None:
+        flags.append("phantoms")
     if case.get("rounds"):
         m0 = [a["mean_nostyle"] for a in ir["rounds"][0]["assertions"].values()]
         flags.append("seq-flip" if all(x > 0.5 + TOL for x in m0) != (out == "allwin") else "seq")
@@ -860,6 +926,13 @@ def oracle_c02(case, ir):
                                 f"were handed the same winner / loser list objects: " + v["what"]}
             tagged = tagged or v
         return tagged
+    if case.get("phantoms") is not None and ir.get("st") == "ok":
+        v = _oracle_state(case, ir)
+        if v and not v.get("finding"):
+            k = case["phantoms"]["n"]
+            return {"what": f"after CVR.make_phantoms ({len(case['cvrs']) - k} CVRs + {k} phantoms = contest.cards = "
+                            f"{len(case['cvrs'])}, use_style={case['phantoms']['use_style']}): " + v["what"]}
+        return v
     return _oracle_state(case, ir)
 
 
